@@ -247,7 +247,18 @@ PROPS["C06"] = {
     "assumptions": ["event content is deterministic (fixed clock, no caller); settings are the defaults",
                     "real goroutines: only interleavings the Go scheduler produces are seen; yields, sleeps and a gate inside the writer widen the windows; the race detector (race job) reports unsynchronised access without needing the bad interleaving",
                     "the togglers only switch between global levels / sampling states that do not filter any generated event"],
-    "claim": {"ref": "DESIGN.md §5 C06", "technique": "property-based testing (rapid) of generated concurrent workloads on real goroutines, with and without the race detector; oracle: multiset identity with solo runs, entry/exit checksums, SyncWriter overlap counter",
+    "claim": {"ref": "DESIGN.md §5 C06", "technique": "property-based testing (rapid) of generated concurrent workloads on real goroutines (with and without -race) + schedule search (bounded-preemption DFS, PCT, rapid byte strings) over the instrumented root package on a cooperative scheduler; oracle: multiset identity with solo runs, entry/exit checksums, SyncWriter overlap counter",
               "text": "Generated-input search: workloads of 2..12 (32 thorough) goroutines, each emitting generated event chains (payloads on both sides of the 500-byte and 64-KiB pool thresholds, nested containers, hooks) through a shared logger, its children and the global logger, against writers that yield, sleep or block inside Write, plain and SyncWriter-wrapped, with concurrent global-level/sampling togglers. The multiset of received slices must equal the multiset obtained by running every chain alone; a slice must not change while Write is in progress; SyncWriter must never let two calls overlap; the race build must report nothing. Held on everything explored.",
               "note": "Absence of a schedule-dependent failure is not established: the schedule is the Go runtime's (DESIGN.md §7)."},
 }
+
+def _logsched_jobs(q, t):
+    return [
+        {"name": "sched-dfs", "sched": True, "pkg": "./vsched/logcheck", "tags": "", "run": "^TestDFS$", "shards": T(4, 16), "timeout": T(900, 7200)},
+        {"name": "sched-random", "sched": True, "pkg": "./vsched/logcheck", "tags": "", "run": "^TestRapidSchedules$", "rapid": T(q, t), "shards": T(2, 8), "timeout": T(900, 7200)},
+    ]
+PROPS["C06"]["jobs"] += _logsched_jobs(3000, 60000)
+PROPS["C13"]["jobs"] += _logsched_jobs(3000, 60000)
+PROPS["C15"]["jobs"] += _logsched_jobs(3000, 60000)
+for _p in ("C06", "C13", "C15"):
+    PROPS[_p]["assumptions"] = PROPS[_p]["assumptions"] + ["scheduler tier: the root package is rewritten onto the cooperative scheduler (sync.Pool as a LIFO stack, mutexes and atomics as scheduling points); see C10 assumptions"]
